@@ -256,6 +256,7 @@ class Interp:
         self._dom_seen = set()
         self.check_time = 0.0
         self.n_checks = 0
+        self.pins = {}
         from . import lib as _lib
         _lib.install(self)
 
@@ -319,7 +320,28 @@ class Interp:
                 raise PathAbort()
         self.decisions.append(choice)
         self.assume(cond if choice else z3.Not(cond))
+        if choice:
+            self._note_pin(cond)
         return choice
+
+    def _note_pin(self, cond):
+        """remember  atom == <code>  facts so that later comparisons are concrete"""
+        if z3.is_eq(cond):
+            a, b = cond.arg(0), cond.arg(1)
+            if z3.is_int_value(b) and z3.is_const(a) and not z3.is_int_value(a):
+                self.pins[a.get_id()] = b.as_long()
+            elif z3.is_int_value(a) and z3.is_const(b) and not z3.is_int_value(b):
+                self.pins[b.get_id()] = a.as_long()
+
+    def resolve(self, v):
+        """concrete string of an atom whose value the path condition pins, else the atom"""
+        if isinstance(v, SAtom):
+            c = self.pins.get(v.term.get_id())
+            if c is not None:
+                sv = V.code_str(c)
+                if sv is not None:
+                    return sv
+        return v
 
     def choose(self, conds):
         """multi-way fork: returns index of the first condition chosen true, or len(conds)"""
@@ -466,6 +488,10 @@ class Interp:
         raise Unsupported(f"== between {a!r} and {b!r}")
 
     def _atom_eq(self, a, b):
+        a, b = self.resolve(a), self.resolve(b)
+        if isinstance(a, str) and isinstance(b, str):
+            return a == b
+
         def code(x):
             if isinstance(x, SAtom):
                 return x.term
@@ -609,6 +635,7 @@ class Interp:
         self.dom_guards = []
         self.domain_pending = []
         self._dom_seen = set()
+        self.pins = {}
         # module-level state is rebuilt per path (registries are mutable)
         self.modules = {}
 
